@@ -160,6 +160,15 @@ theorem gen_code4p_dual (dn nom up a : ℝ) (h0 : a ≠ 0) (h1 : a ≠ 1) (hm : 
   unfold Gen.fast_code4p; lift_all
   all_goals (intro hh; norm_num at hh; first | exact h0 hh | exact h1 hh | exact hm hh | exact h0 hh.symm | exact h1 hh.symm | exact hm hh.symm)
 
+/-- code 1 (piecewise exponential, `(up/nom)^α` resp. `(dn/nom)^(−α)`), for `α ≠ 0` and positive variations -/
+theorem gen_code1_dual (dn nom up a : ℝ) (h0 : a ≠ 0) (hd : 0 < dn) (hn : 0 < nom) (hu : 0 < up) :
+    IsLift (fun t => Gen.fast_code1 (Dual.prim realPrim) (Dual.const dn) (Dual.const nom) (Dual.const up) (Dual.var t))
+           (fun t => Gen.fast_code1 realPrim dn nom up t) a := by
+  unfold Gen.fast_code1; lift_all
+  all_goals first
+    | positivity
+    | (intro hh; norm_num at hh; first | exact h0 hh | exact h0 hh.symm)
+
 /-! ## the composed log-likelihood of shape F (bin-wise constraints: uncorrelated shape + MC-statistical, signal strength), every direction -/
 
 /-- shapeF: the dual-number evaluation of the whole log-likelihood, seeded in `p_mu`, carries its true partial derivative -/
@@ -211,6 +220,134 @@ theorem shapeF_logpdf_dual_p_stat_SR_1 (s0 s1 es0 es1 b0 b1 u0 u1 eb0 eb1 p_mu p
   unfold Gen.shapeF_logpdf Gen.np_poisson_logpdf Gen.np_normal_logpdf
   lift_all
   side_pos
+
+/-! ## expected rates of shape B (interpolated shape systematic code 4p, luminosity, uncorrelated shape, MC-statistical), every bin and direction -/
+
+/-- shapeB, bin 0: the dual-number evaluation of the expected rate, seeded in `p_sysH`, carries its true partial derivative (away from the
+breakpoints ±1 of the interpolated systematic, and from 0 where the dual formula of `pow(α, 2)` divides by α) -/
+theorem shapeB_bin0_dual_p_sysH (s0 s1 es0 es1 b0 b1 u0 u1 eb0 eb1 hl0 hl1 hh0 hh1 p_sysH p_lumi p_mu p_uncorr_0 p_uncorr_1 p_stat_SR_0 p_stat_SR_1 : ℝ) (h0 : p_sysH ≠ 0) (h1 : p_sysH ≠ 1) (hm : p_sysH ≠ -1) :
+    IsLift (fun t => Gen.shapeB_bin0 (Dual.prim realPrim) (Dual.const s0) (Dual.const s1) (Dual.const es0) (Dual.const es1) (Dual.const b0) (Dual.const b1) (Dual.const u0) (Dual.const u1) (Dual.const eb0) (Dual.const eb1) (Dual.const hl0) (Dual.const hl1) (Dual.const hh0) (Dual.const hh1) (Dual.var t) (Dual.const p_lumi) (Dual.const p_mu) (Dual.const p_uncorr_0) (Dual.const p_uncorr_1) (Dual.const p_stat_SR_0) (Dual.const p_stat_SR_1))
+           (fun t => Gen.shapeB_bin0 realPrim s0 s1 es0 es1 b0 b1 u0 u1 eb0 eb1 hl0 hl1 hh0 hh1 t p_lumi p_mu p_uncorr_0 p_uncorr_1 p_stat_SR_0 p_stat_SR_1) p_sysH := by
+  unfold Gen.shapeB_bin0
+  lift_all
+  all_goals (intro hh; norm_num at hh; first | exact h0 hh | exact h1 hh | exact hm hh | exact h0 hh.symm | exact h1 hh.symm | exact hm hh.symm)
+
+/-- shapeB, bin 0: the dual-number evaluation of the expected rate, seeded in `p_lumi`, carries its true partial derivative (away from the
+breakpoints ±1 of the interpolated systematic, and from 0 where the dual formula of `pow(α, 2)` divides by α) -/
+theorem shapeB_bin0_dual_p_lumi (s0 s1 es0 es1 b0 b1 u0 u1 eb0 eb1 hl0 hl1 hh0 hh1 p_sysH p_lumi p_mu p_uncorr_0 p_uncorr_1 p_stat_SR_0 p_stat_SR_1 : ℝ) (h0 : p_sysH ≠ 0) (h1 : p_sysH ≠ 1) (hm : p_sysH ≠ -1) :
+    IsLift (fun t => Gen.shapeB_bin0 (Dual.prim realPrim) (Dual.const s0) (Dual.const s1) (Dual.const es0) (Dual.const es1) (Dual.const b0) (Dual.const b1) (Dual.const u0) (Dual.const u1) (Dual.const eb0) (Dual.const eb1) (Dual.const hl0) (Dual.const hl1) (Dual.const hh0) (Dual.const hh1) (Dual.const p_sysH) (Dual.var t) (Dual.const p_mu) (Dual.const p_uncorr_0) (Dual.const p_uncorr_1) (Dual.const p_stat_SR_0) (Dual.const p_stat_SR_1))
+           (fun t => Gen.shapeB_bin0 realPrim s0 s1 es0 es1 b0 b1 u0 u1 eb0 eb1 hl0 hl1 hh0 hh1 p_sysH t p_mu p_uncorr_0 p_uncorr_1 p_stat_SR_0 p_stat_SR_1) p_lumi := by
+  unfold Gen.shapeB_bin0
+  lift_all
+  all_goals (intro hh; norm_num at hh; first | exact h0 hh | exact h1 hh | exact hm hh | exact h0 hh.symm | exact h1 hh.symm | exact hm hh.symm)
+
+/-- shapeB, bin 0: the dual-number evaluation of the expected rate, seeded in `p_mu`, carries its true partial derivative (away from the
+breakpoints ±1 of the interpolated systematic, and from 0 where the dual formula of `pow(α, 2)` divides by α) -/
+theorem shapeB_bin0_dual_p_mu (s0 s1 es0 es1 b0 b1 u0 u1 eb0 eb1 hl0 hl1 hh0 hh1 p_sysH p_lumi p_mu p_uncorr_0 p_uncorr_1 p_stat_SR_0 p_stat_SR_1 : ℝ) (h0 : p_sysH ≠ 0) (h1 : p_sysH ≠ 1) (hm : p_sysH ≠ -1) :
+    IsLift (fun t => Gen.shapeB_bin0 (Dual.prim realPrim) (Dual.const s0) (Dual.const s1) (Dual.const es0) (Dual.const es1) (Dual.const b0) (Dual.const b1) (Dual.const u0) (Dual.const u1) (Dual.const eb0) (Dual.const eb1) (Dual.const hl0) (Dual.const hl1) (Dual.const hh0) (Dual.const hh1) (Dual.const p_sysH) (Dual.const p_lumi) (Dual.var t) (Dual.const p_uncorr_0) (Dual.const p_uncorr_1) (Dual.const p_stat_SR_0) (Dual.const p_stat_SR_1))
+           (fun t => Gen.shapeB_bin0 realPrim s0 s1 es0 es1 b0 b1 u0 u1 eb0 eb1 hl0 hl1 hh0 hh1 p_sysH p_lumi t p_uncorr_0 p_uncorr_1 p_stat_SR_0 p_stat_SR_1) p_mu := by
+  unfold Gen.shapeB_bin0
+  lift_all
+  all_goals (intro hh; norm_num at hh; first | exact h0 hh | exact h1 hh | exact hm hh | exact h0 hh.symm | exact h1 hh.symm | exact hm hh.symm)
+
+/-- shapeB, bin 0: the dual-number evaluation of the expected rate, seeded in `p_uncorr_0`, carries its true partial derivative (away from the
+breakpoints ±1 of the interpolated systematic, and from 0 where the dual formula of `pow(α, 2)` divides by α) -/
+theorem shapeB_bin0_dual_p_uncorr_0 (s0 s1 es0 es1 b0 b1 u0 u1 eb0 eb1 hl0 hl1 hh0 hh1 p_sysH p_lumi p_mu p_uncorr_0 p_uncorr_1 p_stat_SR_0 p_stat_SR_1 : ℝ) (h0 : p_sysH ≠ 0) (h1 : p_sysH ≠ 1) (hm : p_sysH ≠ -1) :
+    IsLift (fun t => Gen.shapeB_bin0 (Dual.prim realPrim) (Dual.const s0) (Dual.const s1) (Dual.const es0) (Dual.const es1) (Dual.const b0) (Dual.const b1) (Dual.const u0) (Dual.const u1) (Dual.const eb0) (Dual.const eb1) (Dual.const hl0) (Dual.const hl1) (Dual.const hh0) (Dual.const hh1) (Dual.const p_sysH) (Dual.const p_lumi) (Dual.const p_mu) (Dual.var t) (Dual.const p_uncorr_1) (Dual.const p_stat_SR_0) (Dual.const p_stat_SR_1))
+           (fun t => Gen.shapeB_bin0 realPrim s0 s1 es0 es1 b0 b1 u0 u1 eb0 eb1 hl0 hl1 hh0 hh1 p_sysH p_lumi p_mu t p_uncorr_1 p_stat_SR_0 p_stat_SR_1) p_uncorr_0 := by
+  unfold Gen.shapeB_bin0
+  lift_all
+  all_goals (intro hh; norm_num at hh; first | exact h0 hh | exact h1 hh | exact hm hh | exact h0 hh.symm | exact h1 hh.symm | exact hm hh.symm)
+
+/-- shapeB, bin 0: the dual-number evaluation of the expected rate, seeded in `p_uncorr_1`, carries its true partial derivative (away from the
+breakpoints ±1 of the interpolated systematic, and from 0 where the dual formula of `pow(α, 2)` divides by α) -/
+theorem shapeB_bin0_dual_p_uncorr_1 (s0 s1 es0 es1 b0 b1 u0 u1 eb0 eb1 hl0 hl1 hh0 hh1 p_sysH p_lumi p_mu p_uncorr_0 p_uncorr_1 p_stat_SR_0 p_stat_SR_1 : ℝ) (h0 : p_sysH ≠ 0) (h1 : p_sysH ≠ 1) (hm : p_sysH ≠ -1) :
+    IsLift (fun t => Gen.shapeB_bin0 (Dual.prim realPrim) (Dual.const s0) (Dual.const s1) (Dual.const es0) (Dual.const es1) (Dual.const b0) (Dual.const b1) (Dual.const u0) (Dual.const u1) (Dual.const eb0) (Dual.const eb1) (Dual.const hl0) (Dual.const hl1) (Dual.const hh0) (Dual.const hh1) (Dual.const p_sysH) (Dual.const p_lumi) (Dual.const p_mu) (Dual.const p_uncorr_0) (Dual.var t) (Dual.const p_stat_SR_0) (Dual.const p_stat_SR_1))
+           (fun t => Gen.shapeB_bin0 realPrim s0 s1 es0 es1 b0 b1 u0 u1 eb0 eb1 hl0 hl1 hh0 hh1 p_sysH p_lumi p_mu p_uncorr_0 t p_stat_SR_0 p_stat_SR_1) p_uncorr_1 := by
+  unfold Gen.shapeB_bin0
+  lift_all
+  all_goals (intro hh; norm_num at hh; first | exact h0 hh | exact h1 hh | exact hm hh | exact h0 hh.symm | exact h1 hh.symm | exact hm hh.symm)
+
+/-- shapeB, bin 0: the dual-number evaluation of the expected rate, seeded in `p_stat_SR_0`, carries its true partial derivative (away from the
+breakpoints ±1 of the interpolated systematic, and from 0 where the dual formula of `pow(α, 2)` divides by α) -/
+theorem shapeB_bin0_dual_p_stat_SR_0 (s0 s1 es0 es1 b0 b1 u0 u1 eb0 eb1 hl0 hl1 hh0 hh1 p_sysH p_lumi p_mu p_uncorr_0 p_uncorr_1 p_stat_SR_0 p_stat_SR_1 : ℝ) (h0 : p_sysH ≠ 0) (h1 : p_sysH ≠ 1) (hm : p_sysH ≠ -1) :
+    IsLift (fun t => Gen.shapeB_bin0 (Dual.prim realPrim) (Dual.const s0) (Dual.const s1) (Dual.const es0) (Dual.const es1) (Dual.const b0) (Dual.const b1) (Dual.const u0) (Dual.const u1) (Dual.const eb0) (Dual.const eb1) (Dual.const hl0) (Dual.const hl1) (Dual.const hh0) (Dual.const hh1) (Dual.const p_sysH) (Dual.const p_lumi) (Dual.const p_mu) (Dual.const p_uncorr_0) (Dual.const p_uncorr_1) (Dual.var t) (Dual.const p_stat_SR_1))
+           (fun t => Gen.shapeB_bin0 realPrim s0 s1 es0 es1 b0 b1 u0 u1 eb0 eb1 hl0 hl1 hh0 hh1 p_sysH p_lumi p_mu p_uncorr_0 p_uncorr_1 t p_stat_SR_1) p_stat_SR_0 := by
+  unfold Gen.shapeB_bin0
+  lift_all
+  all_goals (intro hh; norm_num at hh; first | exact h0 hh | exact h1 hh | exact hm hh | exact h0 hh.symm | exact h1 hh.symm | exact hm hh.symm)
+
+/-- shapeB, bin 0: the dual-number evaluation of the expected rate, seeded in `p_stat_SR_1`, carries its true partial derivative (away from the
+breakpoints ±1 of the interpolated systematic, and from 0 where the dual formula of `pow(α, 2)` divides by α) -/
+theorem shapeB_bin0_dual_p_stat_SR_1 (s0 s1 es0 es1 b0 b1 u0 u1 eb0 eb1 hl0 hl1 hh0 hh1 p_sysH p_lumi p_mu p_uncorr_0 p_uncorr_1 p_stat_SR_0 p_stat_SR_1 : ℝ) (h0 : p_sysH ≠ 0) (h1 : p_sysH ≠ 1) (hm : p_sysH ≠ -1) :
+    IsLift (fun t => Gen.shapeB_bin0 (Dual.prim realPrim) (Dual.const s0) (Dual.const s1) (Dual.const es0) (Dual.const es1) (Dual.const b0) (Dual.const b1) (Dual.const u0) (Dual.const u1) (Dual.const eb0) (Dual.const eb1) (Dual.const hl0) (Dual.const hl1) (Dual.const hh0) (Dual.const hh1) (Dual.const p_sysH) (Dual.const p_lumi) (Dual.const p_mu) (Dual.const p_uncorr_0) (Dual.const p_uncorr_1) (Dual.const p_stat_SR_0) (Dual.var t))
+           (fun t => Gen.shapeB_bin0 realPrim s0 s1 es0 es1 b0 b1 u0 u1 eb0 eb1 hl0 hl1 hh0 hh1 p_sysH p_lumi p_mu p_uncorr_0 p_uncorr_1 p_stat_SR_0 t) p_stat_SR_1 := by
+  unfold Gen.shapeB_bin0
+  lift_all
+  all_goals (intro hh; norm_num at hh; first | exact h0 hh | exact h1 hh | exact hm hh | exact h0 hh.symm | exact h1 hh.symm | exact hm hh.symm)
+
+/-- shapeB, bin 1: the dual-number evaluation of the expected rate, seeded in `p_sysH`, carries its true partial derivative (away from the
+breakpoints ±1 of the interpolated systematic, and from 0 where the dual formula of `pow(α, 2)` divides by α) -/
+theorem shapeB_bin1_dual_p_sysH (s0 s1 es0 es1 b0 b1 u0 u1 eb0 eb1 hl0 hl1 hh0 hh1 p_sysH p_lumi p_mu p_uncorr_0 p_uncorr_1 p_stat_SR_0 p_stat_SR_1 : ℝ) (h0 : p_sysH ≠ 0) (h1 : p_sysH ≠ 1) (hm : p_sysH ≠ -1) :
+    IsLift (fun t => Gen.shapeB_bin1 (Dual.prim realPrim) (Dual.const s0) (Dual.const s1) (Dual.const es0) (Dual.const es1) (Dual.const b0) (Dual.const b1) (Dual.const u0) (Dual.const u1) (Dual.const eb0) (Dual.const eb1) (Dual.const hl0) (Dual.const hl1) (Dual.const hh0) (Dual.const hh1) (Dual.var t) (Dual.const p_lumi) (Dual.const p_mu) (Dual.const p_uncorr_0) (Dual.const p_uncorr_1) (Dual.const p_stat_SR_0) (Dual.const p_stat_SR_1))
+           (fun t => Gen.shapeB_bin1 realPrim s0 s1 es0 es1 b0 b1 u0 u1 eb0 eb1 hl0 hl1 hh0 hh1 t p_lumi p_mu p_uncorr_0 p_uncorr_1 p_stat_SR_0 p_stat_SR_1) p_sysH := by
+  unfold Gen.shapeB_bin1
+  lift_all
+  all_goals (intro hh; norm_num at hh; first | exact h0 hh | exact h1 hh | exact hm hh | exact h0 hh.symm | exact h1 hh.symm | exact hm hh.symm)
+
+/-- shapeB, bin 1: the dual-number evaluation of the expected rate, seeded in `p_lumi`, carries its true partial derivative (away from the
+breakpoints ±1 of the interpolated systematic, and from 0 where the dual formula of `pow(α, 2)` divides by α) -/
+theorem shapeB_bin1_dual_p_lumi (s0 s1 es0 es1 b0 b1 u0 u1 eb0 eb1 hl0 hl1 hh0 hh1 p_sysH p_lumi p_mu p_uncorr_0 p_uncorr_1 p_stat_SR_0 p_stat_SR_1 : ℝ) (h0 : p_sysH ≠ 0) (h1 : p_sysH ≠ 1) (hm : p_sysH ≠ -1) :
+    IsLift (fun t => Gen.shapeB_bin1 (Dual.prim realPrim) (Dual.const s0) (Dual.const s1) (Dual.const es0) (Dual.const es1) (Dual.const b0) (Dual.const b1) (Dual.const u0) (Dual.const u1) (Dual.const eb0) (Dual.const eb1) (Dual.const hl0) (Dual.const hl1) (Dual.const hh0) (Dual.const hh1) (Dual.const p_sysH) (Dual.var t) (Dual.const p_mu) (Dual.const p_uncorr_0) (Dual.const p_uncorr_1) (Dual.const p_stat_SR_0) (Dual.const p_stat_SR_1))
+           (fun t => Gen.shapeB_bin1 realPrim s0 s1 es0 es1 b0 b1 u0 u1 eb0 eb1 hl0 hl1 hh0 hh1 p_sysH t p_mu p_uncorr_0 p_uncorr_1 p_stat_SR_0 p_stat_SR_1) p_lumi := by
+  unfold Gen.shapeB_bin1
+  lift_all
+  all_goals (intro hh; norm_num at hh; first | exact h0 hh | exact h1 hh | exact hm hh | exact h0 hh.symm | exact h1 hh.symm | exact hm hh.symm)
+
+/-- shapeB, bin 1: the dual-number evaluation of the expected rate, seeded in `p_mu`, carries its true partial derivative (away from the
+breakpoints ±1 of the interpolated systematic, and from 0 where the dual formula of `pow(α, 2)` divides by α) -/
+theorem shapeB_bin1_dual_p_mu (s0 s1 es0 es1 b0 b1 u0 u1 eb0 eb1 hl0 hl1 hh0 hh1 p_sysH p_lumi p_mu p_uncorr_0 p_uncorr_1 p_stat_SR_0 p_stat_SR_1 : ℝ) (h0 : p_sysH ≠ 0) (h1 : p_sysH ≠ 1) (hm : p_sysH ≠ -1) :
+    IsLift (fun t => Gen.shapeB_bin1 (Dual.prim realPrim) (Dual.const s0) (Dual.const s1) (Dual.const es0) (Dual.const es1) (Dual.const b0) (Dual.const b1) (Dual.const u0) (Dual.const u1) (Dual.const eb0) (Dual.const eb1) (Dual.const hl0) (Dual.const hl1) (Dual.const hh0) (Dual.const hh1) (Dual.const p_sysH) (Dual.const p_lumi) (Dual.var t) (Dual.const p_uncorr_0) (Dual.const p_uncorr_1) (Dual.const p_stat_SR_0) (Dual.const p_stat_SR_1))
+           (fun t => Gen.shapeB_bin1 realPrim s0 s1 es0 es1 b0 b1 u0 u1 eb0 eb1 hl0 hl1 hh0 hh1 p_sysH p_lumi t p_uncorr_0 p_uncorr_1 p_stat_SR_0 p_stat_SR_1) p_mu := by
+  unfold Gen.shapeB_bin1
+  lift_all
+  all_goals (intro hh; norm_num at hh; first | exact h0 hh | exact h1 hh | exact hm hh | exact h0 hh.symm | exact h1 hh.symm | exact hm hh.symm)
+
+/-- shapeB, bin 1: the dual-number evaluation of the expected rate, seeded in `p_uncorr_0`, carries its true partial derivative (away from the
+breakpoints ±1 of the interpolated systematic, and from 0 where the dual formula of `pow(α, 2)` divides by α) -/
+theorem shapeB_bin1_dual_p_uncorr_0 (s0 s1 es0 es1 b0 b1 u0 u1 eb0 eb1 hl0 hl1 hh0 hh1 p_sysH p_lumi p_mu p_uncorr_0 p_uncorr_1 p_stat_SR_0 p_stat_SR_1 : ℝ) (h0 : p_sysH ≠ 0) (h1 : p_sysH ≠ 1) (hm : p_sysH ≠ -1) :
+    IsLift (fun t => Gen.shapeB_bin1 (Dual.prim realPrim) (Dual.const s0) (Dual.const s1) (Dual.const es0) (Dual.const es1) (Dual.const b0) (Dual.const b1) (Dual.const u0) (Dual.const u1) (Dual.const eb0) (Dual.const eb1) (Dual.const hl0) (Dual.const hl1) (Dual.const hh0) (Dual.const hh1) (Dual.const p_sysH) (Dual.const p_lumi) (Dual.const p_mu) (Dual.var t) (Dual.const p_uncorr_1) (Dual.const p_stat_SR_0) (Dual.const p_stat_SR_1))
+           (fun t => Gen.shapeB_bin1 realPrim s0 s1 es0 es1 b0 b1 u0 u1 eb0 eb1 hl0 hl1 hh0 hh1 p_sysH p_lumi p_mu t p_uncorr_1 p_stat_SR_0 p_stat_SR_1) p_uncorr_0 := by
+  unfold Gen.shapeB_bin1
+  lift_all
+  all_goals (intro hh; norm_num at hh; first | exact h0 hh | exact h1 hh | exact hm hh | exact h0 hh.symm | exact h1 hh.symm | exact hm hh.symm)
+
+/-- shapeB, bin 1: the dual-number evaluation of the expected rate, seeded in `p_uncorr_1`, carries its true partial derivative (away from the
+breakpoints ±1 of the interpolated systematic, and from 0 where the dual formula of `pow(α, 2)` divides by α) -/
+theorem shapeB_bin1_dual_p_uncorr_1 (s0 s1 es0 es1 b0 b1 u0 u1 eb0 eb1 hl0 hl1 hh0 hh1 p_sysH p_lumi p_mu p_uncorr_0 p_uncorr_1 p_stat_SR_0 p_stat_SR_1 : ℝ) (h0 : p_sysH ≠ 0) (h1 : p_sysH ≠ 1) (hm : p_sysH ≠ -1) :
+    IsLift (fun t => Gen.shapeB_bin1 (Dual.prim realPrim) (Dual.const s0) (Dual.const s1) (Dual.const es0) (Dual.const es1) (Dual.const b0) (Dual.const b1) (Dual.const u0) (Dual.const u1) (Dual.const eb0) (Dual.const eb1) (Dual.const hl0) (Dual.const hl1) (Dual.const hh0) (Dual.const hh1) (Dual.const p_sysH) (Dual.const p_lumi) (Dual.const p_mu) (Dual.const p_uncorr_0) (Dual.var t) (Dual.const p_stat_SR_0) (Dual.const p_stat_SR_1))
+           (fun t => Gen.shapeB_bin1 realPrim s0 s1 es0 es1 b0 b1 u0 u1 eb0 eb1 hl0 hl1 hh0 hh1 p_sysH p_lumi p_mu p_uncorr_0 t p_stat_SR_0 p_stat_SR_1) p_uncorr_1 := by
+  unfold Gen.shapeB_bin1
+  lift_all
+  all_goals (intro hh; norm_num at hh; first | exact h0 hh | exact h1 hh | exact hm hh | exact h0 hh.symm | exact h1 hh.symm | exact hm hh.symm)
+
+/-- shapeB, bin 1: the dual-number evaluation of the expected rate, seeded in `p_stat_SR_0`, carries its true partial derivative (away from the
+breakpoints ±1 of the interpolated systematic, and from 0 where the dual formula of `pow(α, 2)` divides by α) -/
+theorem shapeB_bin1_dual_p_stat_SR_0 (s0 s1 es0 es1 b0 b1 u0 u1 eb0 eb1 hl0 hl1 hh0 hh1 p_sysH p_lumi p_mu p_uncorr_0 p_uncorr_1 p_stat_SR_0 p_stat_SR_1 : ℝ) (h0 : p_sysH ≠ 0) (h1 : p_sysH ≠ 1) (hm : p_sysH ≠ -1) :
+    IsLift (fun t => Gen.shapeB_bin1 (Dual.prim realPrim) (Dual.const s0) (Dual.const s1) (Dual.const es0) (Dual.const es1) (Dual.const b0) (Dual.const b1) (Dual.const u0) (Dual.const u1) (Dual.const eb0) (Dual.const eb1) (Dual.const hl0) (Dual.const hl1) (Dual.const hh0) (Dual.const hh1) (Dual.const p_sysH) (Dual.const p_lumi) (Dual.const p_mu) (Dual.const p_uncorr_0) (Dual.const p_uncorr_1) (Dual.var t) (Dual.const p_stat_SR_1))
+           (fun t => Gen.shapeB_bin1 realPrim s0 s1 es0 es1 b0 b1 u0 u1 eb0 eb1 hl0 hl1 hh0 hh1 p_sysH p_lumi p_mu p_uncorr_0 p_uncorr_1 t p_stat_SR_1) p_stat_SR_0 := by
+  unfold Gen.shapeB_bin1
+  lift_all
+  all_goals (intro hh; norm_num at hh; first | exact h0 hh | exact h1 hh | exact hm hh | exact h0 hh.symm | exact h1 hh.symm | exact hm hh.symm)
+
+/-- shapeB, bin 1: the dual-number evaluation of the expected rate, seeded in `p_stat_SR_1`, carries its true partial derivative (away from the
+breakpoints ±1 of the interpolated systematic, and from 0 where the dual formula of `pow(α, 2)` divides by α) -/
+theorem shapeB_bin1_dual_p_stat_SR_1 (s0 s1 es0 es1 b0 b1 u0 u1 eb0 eb1 hl0 hl1 hh0 hh1 p_sysH p_lumi p_mu p_uncorr_0 p_uncorr_1 p_stat_SR_0 p_stat_SR_1 : ℝ) (h0 : p_sysH ≠ 0) (h1 : p_sysH ≠ 1) (hm : p_sysH ≠ -1) :
+    IsLift (fun t => Gen.shapeB_bin1 (Dual.prim realPrim) (Dual.const s0) (Dual.const s1) (Dual.const es0) (Dual.const es1) (Dual.const b0) (Dual.const b1) (Dual.const u0) (Dual.const u1) (Dual.const eb0) (Dual.const eb1) (Dual.const hl0) (Dual.const hl1) (Dual.const hh0) (Dual.const hh1) (Dual.const p_sysH) (Dual.const p_lumi) (Dual.const p_mu) (Dual.const p_uncorr_0) (Dual.const p_uncorr_1) (Dual.const p_stat_SR_0) (Dual.var t))
+           (fun t => Gen.shapeB_bin1 realPrim s0 s1 es0 es1 b0 b1 u0 u1 eb0 eb1 hl0 hl1 hh0 hh1 p_sysH p_lumi p_mu p_uncorr_0 p_uncorr_1 p_stat_SR_0 t) p_stat_SR_1 := by
+  unfold Gen.shapeB_bin1
+  lift_all
+  all_goals (intro hh; norm_num at hh; first | exact h0 hh | exact h1 hh | exact hm hh | exact h0 hh.symm | exact h1 hh.symm | exact hm hh.symm)
 
 /-- in words: the derivative the reference computes for the signal strength is `HasDerivAt` of the code's log-likelihood -/
 theorem shapeF_reference_gradient_mu (s0 s1 es0 es1 b0 b1 u0 u1 eb0 eb1 p_mu p_uncorr_0 p_uncorr_1 p_stat_SR_0 p_stat_SR_1 d0 d1 a0 a1 a2 a3 : ℝ) (hs0 : 0 < s0) (hs1 : 0 < s1) (hes0 : 0 < es0) (hes1 : 0 < es1) (hb0 : 0 < b0) (hb1 : 0 < b1) (hu0 : 0 < u0) (hu1 : 0 < u1) (heb0 : 0 < eb0) (heb1 : 0 < eb1) (hp_mu : 0 < p_mu) (hp_uncorr_0 : 0 < p_uncorr_0) (hp_uncorr_1 : 0 < p_uncorr_1) (hp_stat_SR_0 : 0 < p_stat_SR_0) (hp_stat_SR_1 : 0 < p_stat_SR_1) :
